@@ -43,8 +43,12 @@ func gaussJordan(a, x Matrix, b Vector, submatrix []bool) error {
   n, _ := a.Dims()
   // permutation of the rows
   p := make([]int, n)
+  // sequence of row interchanges (row i <-> row s[i], s[i] >= i) that
+  // generates p; this is the form PermuteRows/Permute apply correctly
+  s := make([]int, n)
   for i := 0; i < n; i++ {
     p[i] = i
+    s[i] = i
   }
   // x and b should have the same number of rows
   if m, _ := x.Dims(); m != n {
@@ -70,6 +74,7 @@ func gaussJordan(a, x Matrix, b Vector, submatrix []bool) error {
     }
     // swap rows
     p[i], p[maxrow] = p[maxrow], p[i]
+    s[i] = maxrow
     // eliminate column i
     for j := i+1; j < n; j++ {
       if !submatrix[j] {
@@ -158,13 +163,13 @@ func gaussJordan(a, x Matrix, b Vector, submatrix []bool) error {
     // normalize ith element in b
     b.At(p[i]).Div(b.At(p[i]), c)
   }
-  if err := a.PermuteRows(p); err != nil {
+  if err := a.PermuteRows(s); err != nil {
     return err
   }
-  if err := x.PermuteRows(p); err != nil {
+  if err := x.PermuteRows(s); err != nil {
     return err
   }
-  if err := b.Permute(p); err != nil {
+  if err := b.Permute(s); err != nil {
     return err
   }
   return nil
